@@ -19,7 +19,7 @@ KEYS = ["A", "B", "KEY", "NAME_1", "X9", "ROLE", "PATTERN", "REGEX", "ID", "Zeta
 STRS = ["", "x y", "hello world", 'say "hi" now', "tab\there", "line1\nline2", "1abc def", "é ü", "a::b c", "true story",
         "[not, a list]", "// no comment", "semi;colon here", "back\\slash end", "===END=== inside", "  padded  ", "→ arrow text"]
 INTS = ["0", "1", "-7", "42", "1000000", "123456789012345678901234567890"]
-FLOATS = ["2.5", "-0.125", "1e+16", "3.0", "1e-07"]
+FLOATS = ["2.5", "-0.125", "1e+16", "3.0", "1e-07", "1.5e-05", "2.5e+16", "6.02e+23", "-1.2345e-10"]
 
 
 def gen_value(rng):
